@@ -39,6 +39,8 @@ type PodSpec struct {
 	Pool   string     `json:"pool"`
 	Policy int        `json:"policy"` // 0 default, 1 immutable, 2 never
 	Ranges [][]string `json:"ranges"`
+	// RawRanges, if set, are literal request_ip_range strings (C13)
+	RawRanges [][]string `json:"-"`
 }
 
 // PodView is the abstract view of a pod object (API truth, lister copy or event snapshot).
@@ -78,10 +80,13 @@ func BuildPod(s PodSpec, uid string) *corev1.Pod {
 	if s.Pool != "" {
 		p.Annotations[constant.IPPoolAnnotation] = s.Pool
 	}
-	if len(s.Ranges) > 0 {
+	if len(s.Ranges) > 0 || len(s.RawRanges) > 0 {
 		var rr [][]string
 		for _, r := range s.Ranges {
 			rr = append(rr, RangeStrings(r))
+		}
+		if len(s.RawRanges) > 0 {
+			rr = s.RawRanges
 		}
 		b, _ := json.Marshal(map[string]interface{}{"request_ip_range": rr, "common": map[string]interface{}{}})
 		p.Annotations[constant.ExtendedCNIArgsAnnotation] = string(b)
